@@ -168,4 +168,17 @@ Proof.
   split; [rewrite tie_hare; reflexivity|]. split; [apply tie_hare_rounded|]. split; [apply tie_droop; assumption|].
   split; [apply tie_hagenbach_bischoff|]. split; [apply tie_hb_ceil|]. split; [apply tie_hb_rounded|apply tie_imperiali].
 Qed.
+
+(* the quota rules as generated from quota.py return their textbook values *)
+Theorem C02_quota_values_generated : forall v s, (0 <= v)%Z -> (1 <= s)%Z ->
+  let V := inject_Z v in
+  (Gen.Quota.hare v s == V / inject_Z s)%Q /\
+  (Gen.Quota.hare_rounded v s == inject_Z (Qfloor (V / inject_Z s + (1 # 2))))%Q /\
+  (Gen.Quota.droop v s == inject_Z (Qfloor (V / inject_Z (s + 1))) + 1)%Q /\
+  (Gen.Quota.hagenbach_bischoff v s == V / inject_Z (s + 1))%Q /\
+  (Gen.Quota.hagenbach_bischoff_ceil v s == inject_Z (Qceiling (V / inject_Z (s + 1))))%Q /\
+  (Gen.Quota.hagenbach_bischoff_rounded v s == inject_Z (Qfloor (V / inject_Z (s + 1) + (1 # 2))))%Q /\
+  (Gen.Quota.imperiali v s == V / inject_Z (s + 2))%Q.
+Proof. exact GenTie_Quota. Qed.
 Print Assumptions GenTie_Quota.
+Print Assumptions C02_quota_values_generated.
